@@ -45,6 +45,10 @@ type Result struct {
 	SimTimeMs  int64
 	Sample     any    // small JSON-able description of the case
 	Trace      string // canonical event trace (only kept when -sim.trace is set)
+	// LeakedGoroutinesExpected: the system under test left goroutines behind by design of the scenario (an Open that
+	// failed after starting its log writers has no handle to close them); the end-of-bubble deadlock report of
+	// synctest is then not a harness failure.
+	LeakedGoroutinesExpected bool
 }
 
 func (r *Result) Count(name string, n int64) {
@@ -150,6 +154,9 @@ func inBubble(t *testing.T, f func(t *testing.T) *Result) (res *Result, harnessE
 			// goroutines of the system blocked for good; the bubble then ends with synctest's deadlock panic. The
 			// reported violation is the result of the run, not a harness failure.
 			if res != nil && strings.Contains(fmt.Sprint(r), "main bubble goroutine has exited but blocked goroutines remain") {
+				if res.LeakedGoroutinesExpected {
+					return
+				}
 				for _, v := range res.Violations {
 					if v.Oracle == "panic" {
 						return
